@@ -27,7 +27,7 @@ F_flags == { [M(<<Q(nAB, 1, 1)>>, <<>>, <<>>, <<>>) EXCEPT !.id = id, !.qr = qr,
 F_names == { M(<<Q(n, t, c)>>, <<>>, <<>>, <<>>) : n \in Names, t \in {1, 65, 255}, c \in {1, 255} }
            \cup { M(<<Q(nAB, 1, 1)>>, <<RRr(n, ty, 1, T4(300), [name |-> n2])>>, <<>>, <<>>) : n \in Names, n2 \in {nRoot, nAB, n127, n255}, ty \in NameTypes }
 \* -- addresses, classes, ttls
-F_addr == { M(<<Q(nAB, 1, 1)>>, <<RRr(nAB, tA, c, ttl, [ip |-> ip])>>, <<>>, <<RRr(nA, tAAAA, 1, ttl, IP6(x))>>) :
+F_addr == { M(<<Q(nAB, 1, 1)>>, <<RRr(nAB, tA, c, ttl, [ip |-> ip])>>, <<>>, <<RRr(nA, tAAAA, 1, ttl, IP6(x)), RRr(nA, tAAAA, 1, ttl, [ip |-> Rep(0, 10) \o <<255, 255, 10, 1, 2, 3>>])>>) :
               c \in {1, 3, 255}, ttl \in {<<0, 0, 0, 0>>, <<0, 0, 0, 1>>, <<128, 0, 0, 0>>, <<255, 255, 255, 255>>}, ip \in {<<0, 0, 0, 0>>, <<255, 255, 255, 255>>, <<10, 1, 2, 3>>}, x \in {0, 255} }
 \* -- EDNS options and the extended RCODE
 OptLists == { <<>>, <<O(12, Rep(0, 3))>>, <<O(10, Rep(7, 8)), O(12, <<>>)>>, <<O(3, <<110, 115>>)>>, <<O(12, Rep(0, 1)), O(3, <<>>)>> }
@@ -38,7 +38,7 @@ Https(p, t, al, nd, po, v4, ech, v6) == [prio |-> p, target |-> t, alpn |-> al, 
 h2 == <<104, 50>>  h3 == <<104, 51>>
 F_https == { M(<<Q(nAB, 65, 1)>>, <<RRr(nAB, tHTTPS, 1, T4(60), Https(p, t, al, nd, po, v4, ech, v6))>>, <<>>, <<>>) :
                p \in {0, 1, 65535}, t \in {nRoot, nT}, al \in {<<>>, <<h2>>, <<h3, h2>>}, nd \in BOOLEAN, po \in {0, 8443, 65535},
-               v4 \in {<<>>, <<<<192, 0, 2, 1>>>>, <<<<192, 0, 2, 1>>, <<192, 0, 2, 2>>>>}, ech \in {<<>>, <<1, 2, 3>>}, v6 \in {<<>>, <<IP6(9).ip>>} }
+               v4 \in {<<>>, <<<<192, 0, 2, 1>>>>, <<<<192, 0, 2, 1>>, <<192, 0, 2, 2>>>>}, ech \in {<<>>, <<1, 2, 3>>}, v6 \in {<<>>, <<IP6(9).ip>>, <<IP6(9).ip, IP6(7).ip>>} }
 \* -- record types the package only decodes
 F_decodeonly ==
   { M(<<Q(nAB, 15, 1)>>, <<RRr(nAB, tMX, 1, T4(60), [pref |-> pr, name |-> n])>>, <<>>, <<>>) : pr \in {0, 10, 65535}, n \in {nRoot, nAB, nT} }
